@@ -71,8 +71,8 @@ def rand_number(ch):
         return ('lit', 'int', str(int(digits(ch.int(1, 9)))))
     if k == 3:
         return ch.pick([('lit', 'int', t) for t in ('0', '255', '256', '65535', '4294967296', '9223372036854775807', '1000000', '18446744073709551615',
-                                                       '1' + '0' * 400, '123456789' * 40, '340282366920938463463374607431768211456')]
-                       + [('lit', 'float', t) for t in ('1e400', '1e-400', '1e308', '1.7976931348623157e308', '5e-324', '2.5E+300')])  # fmt: skip
+                                                       '1' + '0' * 400, '123456789' * 40, '340282366920938463463374607431768211456', '007', '01', '00', '08')]
+                       + [('lit', 'float', t) for t in ('1e400', '1e-400', '1e308', '1.7976931348623157e308', '5e-324', '2.5E+300', '08.50', '00.5', '1E0')])  # fmt: skip
     if k == 4:
         return ('lit', 'float', digits(ch.int(1, 4)) + '.' + digits(ch.int(0, 6)))
     if k == 5:
